@@ -8,6 +8,7 @@
     run <force 0|1>                                   → <obs>
     preload                                           → <obs>       (`Modules.libralies()` in a fresh process)
     grammar <pathhex>                                 → <obs>       (Op.grammar: another grammar file, fresh mtime)
+    setting <pathhex> <starthex> <algohex>            → <obs>       (Op.setting: ParserSetting changed, grammar mtime unchanged)
     clear | enable <0|1>                              → <obs>
     delete #<i> | trunc #<i> <k>                      → <obs>       (i = index into the canonical listing)
 
@@ -29,7 +30,7 @@ def balanced : Nat → Str → Bool
   | d, c :: rest => if c == '{' then balanced (d + 1) rest else if c == '}' then (d > 1 && balanced (d - 1) rest) else (d > 0 && balanced d rest)
 
 def toySem : Sem where
-  treeIdent g t := s2l s!"T{g}m{t}"
+  treeIdent gp st al g t := s2l ("T" ++ ((Str.hex (gp ++ ['|'] ++ st ++ ['|'] ++ al)).replace "-" "e") ++ s!"g{g}m{t}")
   parserIdent gp st al g := s2l ("P" ++ ((Str.hex (gp ++ ['|'] ++ st ++ ['|'] ++ al)).replace "-" "e") ++ s!"m{g}")
   hash s := s2l ("H" ++ (Str.hex s).replace "-" "e")
   identL hs := 'L' :: Str.join ['x'] hs
@@ -99,6 +100,10 @@ def step' (w : World) : List String → World × String
     match Str.unhex path with
     | some path => let w := step toySem w (.grammar path); (w, obs w "ok" [])
     | none => (w, "bad-op")
+  | ["setting", gp, st, al] =>
+    match Str.unhex gp, Str.unhex st, Str.unhex al with
+    | some gp, some st, some al => let w := step toySem w (.setting gp st al); (w, obs w "ok" [])
+    | _, _, _ => (w, "bad-op")
   | ["clear"] => let w := step toySem w .clear; (w, obs w "ok" [])
   | ["enable", b] =>
     match bool01 b with
